@@ -366,6 +366,12 @@ func genC05(t *rapid.T) C05Case {
 		}
 		return mkC05("expr", "expr-dictionary", b.String())
 	}
+	if rapid.IntRange(0, 2).Draw(t, "structured") > 0 {
+		// well-bracketed command structures (messages with plurals inside plurals, switches, loops, calls)
+		// in which any optional clause and any closing tag may be left out: each input is complete - a
+		// fault of this kind shows only after the whole structure was read
+		return mkC05("file", "structure-with-omissions", wrapLevel(1, genStructure(t, rapid.IntRange(1, 4).Draw(t, "depth"), false), rapid.IntRange(0, 9).Draw(t, "close") > 0))
+	}
 	if rapid.Bool().Draw(t, "manyNames") {
 		// a file whose identifiers no earlier input of this process had: whatever the parser keeps between
 		// parses (tables of names seen so far) grows with every such file
@@ -380,6 +386,67 @@ func genC05(t *rapid.T) C05Case {
 		return mkC05("file", "many-new-names", b.String())
 	}
 	return mkC05("expr", "random-bytes", string(rapid.SliceOfN(rapid.Byte(), 0, 60).Draw(t, "bytes")))
+}
+
+func genStructure(t *rapid.T, depth int, inMsg bool) string {
+	keep := func(s string, percent int) string {
+		if rapid.IntRange(0, 99).Draw(t, "keep") < percent {
+			return s
+		}
+		return ""
+	}
+	leaf := func() string {
+		return rapid.SampledFrom([]string{"text", "{$x}", "{$x.y|id}", "", " ", "<b>t</b>", "{sp}"}).Draw(t, "leaf")
+	}
+	body := func() string {
+		if depth <= 1 {
+			return leaf()
+		}
+		var b strings.Builder
+		for i, n := 0, rapid.IntRange(0, 2).Draw(t, "parts"); i < n; i++ {
+			if rapid.Bool().Draw(t, "nest") {
+				b.WriteString(genStructure(t, depth-1, inMsg))
+			} else {
+				b.WriteString(leaf())
+			}
+		}
+		return b.String()
+	}
+	kinds := []string{"msg", "plural", "switch", "if", "foreach", "call", "let"}
+	if inMsg {
+		kinds = []string{"plural", "plural", "call", "leaf"}
+	}
+	switch rapid.SampledFrom(kinds).Draw(t, "struct") {
+	case "msg":
+		inMsg = true
+		return "{msg desc=\"d\"" + keep(" meaning=\"m\"", 20) + "}" + genStructure(t, depth, true) + keep("{/msg}", 92)
+	case "plural":
+		var b strings.Builder
+		b.WriteString("{plural $n}")
+		for i, n := 0, rapid.IntRange(0, 2).Draw(t, "cases"); i < n; i++ {
+			b.WriteString("{case " + rapid.SampledFrom([]string{"0", "1", "2", "'a'"}).Draw(t, "caseval") + "}" + body())
+		}
+		b.WriteString(keep("{default}"+body(), 60))
+		b.WriteString(keep("{/plural}", 92))
+		return b.String()
+	case "switch":
+		var b strings.Builder
+		b.WriteString("{switch $x}")
+		for i, n := 0, rapid.IntRange(0, 2).Draw(t, "cases"); i < n; i++ {
+			b.WriteString("{case " + rapid.SampledFrom([]string{"0", "1, 2", "'a'"}).Draw(t, "caseval") + "}" + body())
+		}
+		b.WriteString(keep("{default}"+body(), 50) + keep("{/switch}", 92))
+		return b.String()
+	case "if":
+		return "{if $x}" + body() + keep("{elseif $y}"+body(), 40) + keep("{else}"+body(), 40) + keep("{/if}", 92)
+	case "foreach":
+		return "{foreach $i in $x}" + body() + keep("{ifempty}"+body(), 40) + keep("{/foreach}", 92)
+	case "call":
+		return "{call .t}" + keep("{param p}"+body()+keep("{/param}", 90), 60) + keep("{param q: 1 /}", 40) + keep("{/call}", 92)
+	case "let":
+		return "{let $v}" + body() + keep("{/let}", 92) + "{$v}"
+	}
+	return leaf()
 }
 
 type parseOutcome struct {
